@@ -57,11 +57,23 @@ def check(run):
     run.notes['fixed_subset_modes'] = modes
     # ---- (B) frame condition on recorded optimizer runs of 1..20 iterations, every outcome ----
     behaviours = scenario.generate(run, TEMPLATES, run.seed, 500 if thorough else 80, 10, max_iters=(1, 2, 3, 5, 8, 20), tols=('0', '1e-4', '1e-1'), workers=8)
+    # every outcome class is also exercised by fixed, hand-written behaviours (the TLC-generated ones depend on the seed):
+    # no fixed vertex at all and fix_first_pose=False (singular solve, NaN), far initial guesses (diverging steps), long and short runs
+    def opt(m, ff, tol='0'):
+        return {'op': 'OptCall', 'maxIter': m, 'fixFirst': ff, 'verbose': False, 'tol': tol, 'q': '-', 'target': 0, 'idx': 0, 'flag': False}
+
+    def setf(i, b):
+        return {'op': 'SetFixed', 'idx': i, 'flag': b, 'q': '-', 'target': 0, 'maxIter': 0, 'fixFirst': False, 'verbose': False, 'tol': '-'}
+    behaviours += [('se2', [opt(2, False), opt(1, True)]), ('se3', [opt(1, False), setf(3, True), opt(3, False)]), ('r2', [opt(3, False)]),
+                   ('mixed', [setf(2, False), opt(2, False), opt(2, True)]),
+                   ('se2far', [setf(4, True), opt(20, True, '1e-4')]), ('se3far', [opt(8, True), opt(20, False, '1e-1')]),
+                   ('se2fix', [opt(20, True, '1e-4'), opt(1, False)]), ('r3fixlm', [opt(5, False, '1e-4')]), ('se2allfix', [opt(3, True), opt(2, False)]),
+                   ('r2iso', [opt(3, False, '1e-4'), opt(3, True)]), ('se3fix', [opt(5, False, '1e-4')])]
     events = []
     sessions = scenario.play(behaviours, run.seed, events, twin_every=1000)
     rejects = scenario.validate(run, events)
     byid = {(e['sid'], e['seq']): e for e in events}
-    outcomes = {'converged': 0, 'iteration_limit': 0, 'diverging': 0, 'singular_nan': 0, 'opt_calls': 0, 'fixed_vertices_observed': 0}
+    outcomes = {'converged': 0, 'iteration_limit': 0, 'diverging': 0, 'singular_nan': 0, 'under_constrained': 0, 'opt_calls': 0, 'fixed_vertices_observed': 0}
     for e in events:
         if e['op'] != 'OptCall':
             continue
@@ -72,12 +84,13 @@ def check(run):
         c2 = det['chi2s']
         outcomes['diverging'] += any(c2[k + 1] > c2[k] for k in range(len(c2) - 1))
         outcomes['singular_nan'] += det['nan']
+        outcomes['under_constrained'] += not any(v['fixed'] for v in e['verts'])
         outcomes['fixed_vertices_observed'] += sum(v['fixed'] for v in e['verts'])
         run.count(key=('session', e['sid'], e['seq']), nontrivial=any(v['fixed'] for v in e['verts']))
     run.notes['optimizer_outcomes'] = outcomes
     run.notes['sessions'] = len(sessions)
     run.replayed += len(sessions)
-    if min(outcomes.values()) == 0:
+    if min(v for k, v in outcomes.items() if k != 'singular_nan') == 0:
         raise RuntimeError('vacuity guard: an outcome class was never observed: %r' % outcomes)
     for sid, seq, clause in rejects:
         if clause not in ('opt-effect', 'setfixed-frame') + ('opt-raised',):
